@@ -46,6 +46,30 @@ Theorem C16_session : forall s0 s1 s2,
 Proof. exact session_identity. Qed.
 Print Assumptions C16_session.
 
+(** ... and composed with [mount] and [op_close]: for a canonical clean image (bytes in range, clean flags, whole FAT entries,
+    identical FAT copies, FAT32: backup boot sector equal to the primary) a read-write mount followed by close leaves every
+    byte of the device as it was *)
+Theorem C16_mount_close : forall d sz pc s1 dirty s2,
+  dev_ok d -> mount d sz false pc = Ok (s1, dirty) -> op_close s1 = Ok s2 ->
+  let boot := dread d sz 0 512 in
+  let h0 := parse_hdr boot in
+  let p := set_bytes_per_cluster (Gen.parse_header_geometry pf_init h0) (BPB_BytsPerSec h0 * BPB_SecPerClus h0) in
+  let t := fat_type p in
+  let fs := BPB_RsvdSecCnt h0 * BPB_BytsPerSec h0 in
+  let fsz := BPB_BytsPerSec h0 * _fat_size p in
+  let fb := dread d sz fs fsz in
+  let bk := BPB_BkBootSec h0 * BPB_BytsPerSec h0 in
+  bytes_ok boot -> bytes_ok fb ->
+  Z.land (BS_Reserved1 h0) Gen.FAT_DIRTY_BIT_MASK = 0 ->
+  (t = 16 -> Nat.even (length fb) = true /\ Z.land (nthZ (parse16 fb) 1) 32768 = 32768 /\ 1 < lenZ (parse16 fb)) ->
+  (t = 32 -> (length fb mod 4 = 0)%nat /\ Z.land (nthZ (parse32 fb) 1) 134217728 = 134217728 /\ 1 < lenZ (parse32 fb)) ->
+  0 <= fs -> 0 <= fsz -> 0 <= BPB_NumFATs h0 -> fs + BPB_NumFATs h0 * fsz <= sz ->
+  (forall k, 0 <= k < BPB_NumFATs h0 -> dread d sz (fs + k * fsz) fsz = fb) ->
+  (t = 32 -> orig d sz (bk, ser_hdr h0) /\ orig d sz (510 + bk, [85; 170])) ->
+  forall a, 0 <= a -> dbyte (s_dev s2) a = dbyte d a.
+Proof. exact mount_close_identity. Qed.
+Print Assumptions C16_mount_close.
+
 (** non-vacuity: a FAT16 volume of 4400 sectors (both FAT copies and the boot sector written by the model), marked dirty
     (FAT[1] and BS_Reserved1 really change on the device) and clean again *)
 Definition ex16_hdr : hdr := mkHdr [235;60;144] (repeat 77 8) 512 1 1 2 64 4400 248 17 0 0 0 0 0 0 0 0 0 0 [] 128 0 41 7 (repeat 32 11) (repeat 70 8) false.
@@ -85,4 +109,45 @@ Proof.
   - intros m Hm. vm_compute in Hm. inversion Hm; subst m. vm_compute. repeat split; try discriminate; reflexivity.
   - apply origb_orig. vm_compute. reflexivity.
   - intros m _. apply origb_orig. vm_compute. reflexivity.
+Qed.
+
+(** the same volume through [mount] and [op_close] *)
+Definition ex16_dev : dev := s_dev ex16_s0.
+Definition ex16_m1 : st := match mount ex16_dev (4400 * 512) false false with Ok (s, _) => s | Err _ => ex16_s0 end.
+Definition ex16_m2 : st := match op_close ex16_m1 with Ok s => s | Err _ => ex16_m1 end.
+Example C16_mount_close_example :
+  mount ex16_dev (4400 * 512) false false = Ok (ex16_m1, false) /\ op_close ex16_m1 = Ok ex16_m2 /\
+  (forall a, 0 <= a -> dbyte (s_dev ex16_m2) a = dbyte ex16_dev a).
+Proof.
+  assert (E1 : mount ex16_dev (4400 * 512) false false = Ok (ex16_m1, false)) by (vm_compute; reflexivity).
+  assert (E2 : op_close ex16_m1 = Ok ex16_m2) by (vm_compute; reflexivity).
+  split; [exact E1|]. split; [exact E2|].
+  destruct C16_session_example as (_ & _ & _ & _ & _ & _ & _ & _).
+  assert (Hd : dev_ok ex16_dev).
+  { unfold ex16_dev. assert (Hw : exists sa, write_bpb ex16_init = Ok sa /\ exists sb, flush_fat sa = Ok sb /\ s_dev ex16_s0 = s_dev sb).
+    { destruct (write_bpb ex16_init) as [sa|] eqn:Ea; [|vm_compute in Ea; discriminate]. exists sa. split; [reflexivity|].
+      destruct (flush_fat sa) as [sb|] eqn:Eb.
+      - exists sb. split; [reflexivity|]. unfold ex16_s0. rewrite Ea. cbn [bind]. rewrite Eb. reflexivity.
+      - exfalso. assert (X : (do a <- write_bpb ex16_init; flush_fat a) = Err e) by (rewrite Ea; cbn [bind]; exact Eb). vm_compute in X. discriminate. }
+    destruct Hw as (sa & Ea & sb & Eb & ->).
+    apply wrote_write_bpb in Ea. unfold flush_fat in Eb. destruct (s_ro sa); [discriminate|]. apply wrote_flush_copies in Eb.
+    destruct Eb as (_ & Db & _). rewrite Db. rewrite (proj1 (proj2 Ea)). apply apply_log_ok; [apply apply_log_ok; [apply dev_ok_empty|]|].
+    - apply Forall_forall. intros w Hw. assert (Hb : forallb (fun w => 0 <=? fst w) (bpbW (s_h ex16_init) (ft ex16_init =? Gen.FAT_TYPE_FAT32) (BPB_BkBootSec (s_h ex16_init) * bps ex16_init)) = true) by (vm_compute; reflexivity).
+      rewrite forallb_forall in Hb. specialize (Hb w Hw). lia.
+    - apply Forall_forall. intros w Hw.
+      match type of Hw with In _ ?L => assert (Hb : forallb (fun w => 0 <=? fst w) L = true) end.
+      { destruct Ea as (_ & _ & Hh & Hp & Hf & Hhi & _). unfold fat_start, fat_bytes, bps, ft. rewrite Hh, Hp, Hf, Hhi. vm_compute. reflexivity. }
+      rewrite forallb_forall in Hb. specialize (Hb w Hw). lia. }
+  apply (mount_close_identity ex16_dev (4400 * 512) false ex16_m1 false ex16_m2 Hd E1 E2).
+  - apply bytes_okb_spec. vm_compute. reflexivity.
+  - apply bytes_okb_spec. vm_compute. reflexivity.
+  - vm_compute. reflexivity.
+  - intros _. vm_compute. repeat split; reflexivity.
+  - intros H. vm_compute in H. discriminate.
+  - vm_compute. discriminate.
+  - vm_compute. discriminate.
+  - vm_compute. discriminate.
+  - vm_compute. discriminate.
+  - intros k Hk. change (BPB_NumFATs _) with 2 in Hk. assert (Hk' : k = 0 \/ k = 1) by lia. destruct Hk' as [->| ->]; apply list_eqb_eq; vm_compute; reflexivity.
+  - intros H. vm_compute in H. discriminate.
 Qed.
